@@ -995,7 +995,7 @@ func (u *Unit) atCall(s *State, name string, args []Term, site ssa.Instruction, 
 				want, wantOrd = want[:i], n
 			}
 		}
-		if want != name && want != shortCallee(name) && !strings.HasSuffix(shortCallee(name), "."+want) {
+		if !calleeMatches(want, name, args) {
 			continue
 		}
 		if wantOrd != 0 && wantOrd != u.ordinal(site) {
@@ -1041,7 +1041,7 @@ func (u *Unit) atCall(s *State, name string, args []Term, site ssa.Instruction, 
 				want, wantOrd = want[:i], n
 			}
 		}
-		if want != name && want != shortCallee(name) && !strings.HasSuffix(shortCallee(name), "."+want) {
+		if !calleeMatches(want, name, args) {
 			continue
 		}
 		if wantOrd != 0 && wantOrd != u.ordinal(site) {
@@ -1073,6 +1073,27 @@ func (u *Unit) atCall(s *State, name string, args []Term, site ssa.Instruction, 
 		nv := u.define(s, "ghost", t)
 		s.ghost[m[1]] = Term{S: nv.S, Sort: nv.Sort}
 	}
+}
+
+// calleeMatches: does the at-call callee pattern `want` (without ordinal) match the call `name` with these arguments?
+// `append<pkg.T>` matches only append calls on slices whose element type is pkg.T.
+func calleeMatches(want, name string, args []Term) bool {
+	if i := strings.Index(want, "<"); i > 0 && strings.HasSuffix(want, ">") {
+		et := want[i+1 : len(want)-1]
+		want = want[:i]
+		if len(args) == 0 || args[0].T == nil {
+			return false
+		}
+		sl, ok := args[0].T.Underlying().(*types.Slice)
+		if !ok {
+			return false
+		}
+		got := types.TypeString(sl.Elem(), func(p *types.Package) string { return p.Name() })
+		if got != et {
+			return false
+		}
+	}
+	return want == name || want == shortCallee(name) || strings.HasSuffix(shortCallee(name), "."+want)
 }
 
 var ghostRefRe = regexp.MustCompile(`\$[A-Za-z0-9_]+`)
